@@ -65,6 +65,15 @@ def violations_of(R, text):
         if idxs:
             i = R.choice(idxs)
             add(name, text[:i] + rep + text[i + len(pat):])
+    # a bare literal where a logical expression is required
+    idxs = [i for i in range(n) if text[i] in "?("]
+    if idxs:
+        i = R.choice(idxs)
+        lit = R.choice(["true", "false", "null", "1", "'x'", "0.5"])
+        op = R.choice(["||", "&&"])
+        add("bare-literal-operand", text[:i + 1] + lit + op + text[i + 1:])
+        add("bare-literal-operand", text[:i + 1] + "(" + lit + ")" + op + text[i + 1:])
+        add("negated-literal", text[:i + 1] + "!" + lit + op + text[i + 1:])
     # the other quote escaped inside a string literal
     for q_, other in (("'", '"'), ('"', "'")):
         idxs = [i for i in range(n) if text[i] == q_]
